@@ -253,3 +253,14 @@ func InitCerts(t *testing.T) {
 		GetCerts()
 	})
 }
+
+// WithSeed runs f with crypto/rand and math/rand pinned to seed, outside any bubble: used
+// to build spec values (GREASE identifiers, random parameter lengths and the TLS extension
+// shuffle are drawn when a spec is built) reproducibly.
+func WithSeed(t *testing.T, seed uint64, f func()) {
+	t.Run("seeded", func(t *testing.T) {
+		cryptotest.SetGlobalRandom(t, seed)
+		mrand.Seed(int64(seed)) //nolint:staticcheck
+		f()
+	})
+}
